@@ -396,6 +396,27 @@ class _DropAnn(ast.NodeTransformer):
             b = ast.copy_location(ast.Assign([_copy.deepcopy(n.targets[0])], n.value.orelse), n)
             new = ast.copy_location(ast.If(n.value.test, [a], [b]), n)
             return new
+        # X = f(a if c else b, k=(d if c else e))  ->  if c: X = f(a, k=d)  else: X = f(b, k=e)    (two calls merged into one
+        # by conditional arguments that all test the same side-effect-free condition)
+        if self.depth > 0 and len(n.targets) == 1 and isinstance(n.targets[0], ast.Name) and isinstance(n.value, ast.Call):
+            c = n.value
+            conds = [a for a in list(c.args) + [k.value for k in c.keywords] if isinstance(a, ast.IfExp)]
+            if conds and len({ast.unparse(a.test) for a in conds}) == 1 and _pure_flag_expr(conds[0].test) \
+                    and not any(isinstance(y, ast.Name) and y.id == n.targets[0].id for y in ast.walk(conds[0].test)):
+                import copy as _copy
+
+                def pick(call, arm):
+                    call = _copy.deepcopy(call)
+                    call.args = [getattr(a, arm) if isinstance(a, ast.IfExp) else a for a in call.args]
+                    for k in call.keywords:
+                        if isinstance(k.value, ast.IfExp):
+                            k.value = getattr(k.value, arm)
+                    return call
+                a_ = ast.copy_location(ast.Assign([_copy.deepcopy(n.targets[0])], pick(c, "body")), n)
+                b_ = ast.copy_location(ast.Assign([_copy.deepcopy(n.targets[0])], pick(c, "orelse")), n)
+                new = ast.copy_location(ast.If(_copy.deepcopy(conds[0].test), [a_], [b_]), n)
+                ast.fix_missing_locations(new)
+                return new
         # X = {e for a in A for b in B ..}  ->  X = set(); for a in A: for b in B: .. X.add(e)    (several generators)
         if self.depth > 0 and len(n.targets) == 1 and isinstance(n.targets[0], ast.Name) \
                 and isinstance(n.value, (ast.SetComp, ast.ListComp, ast.DictComp)) and len(n.value.generators) >= 2 \
@@ -428,6 +449,28 @@ class _DropAnn(ast.NodeTransformer):
                 if used & set(names[:j]):
                     ok = False
             if ok:
+                return [ast.copy_location(ast.Assign([t], e), n) for t, e in zip(n.targets[0].elts, n.value.elts)]
+        # x, node["f"] = g(..)  ->  _tupK = g(..); x = _tupK[0]; node["f"] = _tupK[1]    (a store into a container among the targets)
+        if self.depth > 0 and len(n.targets) == 1 and isinstance(n.targets[0], ast.Tuple) and isinstance(n.value, ast.Call) \
+                and any(isinstance(t, (ast.Subscript, ast.Attribute)) for t in n.targets[0].elts) \
+                and all(isinstance(t, (ast.Name, ast.Subscript, ast.Attribute)) for t in n.targets[0].elts):
+            self.tk = getattr(self, "tk", 0) + 1
+            tmp = f"_tup{self.tk}"
+            out = [ast.Assign([ast.Name(tmp, ast.Store())], n.value)]
+            for j, t in enumerate(n.targets[0].elts):
+                out.append(ast.Assign([t], ast.Subscript(ast.Name(tmp, ast.Load()), ast.Constant(j), ast.Load())))
+            for st in out:
+                ast.copy_location(st, n)
+                ast.fix_missing_locations(st)
+            return out
+        # self.a, self.b = e1, e2  ->  self.a = e1; self.b = e2     when no right-hand side reads one of the attributes
+        if self.depth > 0 and len(n.targets) == 1 and isinstance(n.targets[0], ast.Tuple) and isinstance(n.value, ast.Tuple) \
+                and len(n.targets[0].elts) == len(n.value.elts) >= 2 \
+                and all(isinstance(t, ast.Attribute) and isinstance(t.value, ast.Name) for t in n.targets[0].elts):
+            tnames = {ast.unparse(t) for t in n.targets[0].elts}
+            reads = {ast.unparse(x) for e in n.value.elts for x in ast.walk(e) if isinstance(x, ast.Attribute)}
+            calls = any(isinstance(x, ast.Call) for e in n.value.elts for x in ast.walk(e))
+            if not (tnames & reads) and not calls:
                 return [ast.copy_location(ast.Assign([t], e), n) for t, e in zip(n.targets[0].elts, n.value.elts)]
         return n
 
@@ -579,6 +622,58 @@ def _count(what: str, n) -> None:
         LOCAL_REWRITES[what] = LOCAL_REWRITES.get(what, 0) + n
 
 
+def _merge_complementary_ifs(fn: ast.FunctionDef) -> int:
+    """`if c: A else: B` directly followed by `if c: C` / `if not c: C [else: D]` (c a side-effect-free test over names that
+    A and B do not re-bind): the second test has the outcome of the first, so C (D) joins the matching arm."""
+    count = 0
+
+    def polar(e):
+        neg = False
+        while True:
+            if isinstance(e, ast.UnaryOp) and isinstance(e.op, ast.Not):
+                e, neg = e.operand, not neg
+            elif isinstance(e, ast.Compare) and len(e.ops) == 1 and isinstance(e.ops[0], (ast.IsNot, ast.NotIn, ast.NotEq)):
+                op = {ast.IsNot: ast.Is, ast.NotIn: ast.In, ast.NotEq: ast.Eq}[type(e.ops[0])]()
+                e, neg = ast.Compare(e.left, [op], e.comparators), not neg
+            else:
+                return ast.unparse(e), neg
+
+    def block(body: list) -> None:
+        nonlocal count
+        i = 0
+        while i + 1 < len(body):
+            s1, s2 = body[i], body[i + 1]
+            if isinstance(s1, ast.If) and isinstance(s2, ast.If) and s1.orelse and _pure_flag_expr(s1.test) and _pure_flag_expr(s2.test):
+                t1, n1 = polar(s1.test)
+                t2, n2 = polar(s2.test)
+                names = {y.id for y in ast.walk(s1.test) if isinstance(y, ast.Name)}
+                stored = {y.id for st in s1.body + s1.orelse for y in ast.walk(st) if isinstance(y, ast.Name) and isinstance(y.ctx, (ast.Store, ast.Del))}
+                leaves = any(isinstance(y, (ast.Return, ast.Raise, ast.Break, ast.Continue)) for st in s1.body + s1.orelse for y in ast.walk(st))
+                has_attr = any(isinstance(y, (ast.Attribute, ast.Subscript)) for y in ast.walk(s1.test))
+                if t1 == t2 and not (names & stored) and not leaves and not has_attr:
+                    same = n1 == n2
+                    s1.body = s1.body + (s2.body if same else s2.orelse)
+                    s1.orelse = s1.orelse + (s2.orelse if same else s2.body)
+                    if not s1.orelse:
+                        s1.orelse = []
+                    del body[i + 1]
+                    count += 1
+                    continue
+            i += 1
+        for st in body:
+            if not isinstance(st, (ast.FunctionDef, ast.ClassDef)):
+                for fld in ("body", "orelse", "finalbody"):
+                    sub = getattr(st, fld, None)
+                    if isinstance(sub, list) and sub and isinstance(sub[0], ast.stmt):
+                        block(sub)
+                for h in getattr(st, "handlers", []) or []:
+                    block(h.body)
+    block(fn.body)
+    if count:
+        ast.fix_missing_locations(fn)
+    return count
+
+
 def _edge_data_locals(fn: ast.FunctionDef) -> int:
     """`e = G.get_edge_data(a, b)` (networkx: the edge's own attribute dictionary, or None when there is no such edge; bound
     once, a and b plain names that are not re-bound): `e is None` is `not G.has_edge(a, b)`, any other read of `e` is
@@ -714,6 +809,7 @@ def _drop_local_annotations(tree: ast.Module) -> None:
     unroll_in(tree.body)
     for x in ast.walk(tree):
         if isinstance(x, ast.FunctionDef):
+            _count("complementary_ifs_merged", _merge_complementary_ifs(x))
             _count("dag_view_aliases", _inline_dag_view_aliases(x))
             _count("quantifiers_over_literal_tuples", _unroll_literal_quantifiers(x))
     for x in ast.walk(tree):
